@@ -389,10 +389,21 @@ def run(tier, a=None):
         if m and cur:
             imp.append((cur, m.group(1)))
     notes = []
+    nimp = 0
     for a_, b_ in imp:
         if a_ in FLAG and b_ in FLAG:
+            nimp += 1
+            k = {"op": "implication:%s=>%s" % (a_, b_), "cfg": a_, "compiler": "clang++"}
+            rule = ("naming one macro is enough: with only -D%s the macro %s, which docs/Capabilities.md lists as implied, "
+                    "must be defined after including <avel/Avel.hpp>" % (a_, b_))
             if b_ not in common.macro_closure([a_]):
                 notes.append("%s => %s documented but not implemented" % (a_, b_))
+                res.add(k, REFUTED, "%s is not defined when only %s is named (the code and types guarded by it are silently absent)" % (b_, a_),
+                        rule, {"build": "-D%s with its own -m flag only" % a_, "expected_defined": b_})
+            else:
+                res.add(k, HOLDS, "%s defined" % b_, rule)
+    if nimp < 20:
+        res.brk("only %d documented implications found in docs/Capabilities.md (format changed?)" % nimp)
     res.extra["documented_implications_not_implemented"] = notes
     res.extra["configurations"] = [c.name for c in cfgs]
     res.trusted = ["g++ 12 and clang++ 14 front ends", "static_assert / SFINAE semantics"]
